@@ -341,7 +341,7 @@ class TermBuilder:
             rs2 = [r for r in rs if r == -1 or ds[r][0] in self.allowed]
             if rs2:
                 rs = rs2
-        mk = (l, tuple(rs))
+        mk = (l, tuple(rs), self.allowed)
         if mk in self._memo:
             return self._memo[mk]
         if mk in self._stack:
